@@ -13,9 +13,11 @@ RULE = ("histories of Namespace operations {set, setattr, get, get-default, cont
         "value, Namespace(dict), dict_to_namespace(dict)} starting from an empty namespace; keys of depth 1-3 over ordinary names "
         "and the method-name clashes; scalar/None/list/tuple/dict/namespace values; the dictionaries given to ns[k]=, Namespace(dict) and "
         "dict_to_namespace hold scalars, None, lists, tuples (also holding dicts / lists / tuples), nested dicts and lists of dicts. quick: every history of length <=2 over a "
-        "fixed operation alphabet (79 operations), 16 hand-written histories through dicts and Namespaces inside dicts, 400 equality histories [ns[k]=V; (random step); ns == re-ordered or "
-        "one-place-perturbed V], and 1500 seeded random histories of length 3-40 (thorough: also length-3 products and 30000 random); "
-        "after EVERY step the output and the whole __dict__ tree are compared with model and spec. "
+        "fixed operation alphabet (82 operations), 16 hand-written histories through dicts and Namespaces inside dicts, 400 equality histories [ns[k]=V; (random step); ns == re-ordered or "
+        "one-place-perturbed V], 500 histories [ns[k] = rich dictionary; 2-7 operations addressed by paths INTO it, incl. update(value / namespace, only_unset) below the dict], and 1500 seeded random histories of length 3-40 (thorough: also length-3 products and 30000 random); "
+        "after EVERY step the output and the whole __dict__ tree are compared with model and spec; the runner also demands of the real class: keys/values = projections of items, "
+        "get_sorted_keys = keys by descending depth with the prefix closure, as_flat = flat namespace of items(), get_value_and_parent = ns[k], non-string keys are no members, "
+        "clone / namespace_to_dict share no mutable node (also below tuples), dict_to_namespace / update(namespace) leave their argument alone. "
         "non-trivial = history with at least one successful mutation; distinct = distinct (history, observations)")
 TRUSTED = [
     "Coq 8.16.1 kernel + vm_compute",
@@ -25,6 +27,8 @@ TRUSTED = [
 ASSUMPTIONS = [
     "user key segments do not start with U+200B; Namespace values are given in stored form (as setattr builds them)",
     "exception classes are not compared (the property speaks of agreement with a nested dictionary, not of error types)",
+    "update(namespace, key): every key prefix+item_key the update addresses has segments that do not start with U+200B "
+    "(upd_keys_ok; attribute names of the source that contain a dot are read as paths, by the code and by the dictionary alike)",
 ]
 EXHAUSTIVE = {"quick": False, "thorough": False}
 FINDING_CLASSES = {1: "path-through-dict"}   # class 1 exists only in the judge of the pre-fix code (`judge`); judge_fixed has classes 0/2/3
@@ -34,14 +38,17 @@ META = {
     "level_text": "Proved in Coq for ALL inputs of the modelled space, about the CURRENT code (after the repair b856eae, model "
                   "coq/Model/C11NsFixed.v; coq/Properties/C11.v, every theorem closed under the global context): "
                   "ns_refines_dict — for ANY clash set and ANY history (unbounded length, key depth and value size) of "
-                  "ns[k]=v, setattr, ns[k], get(k,d), k in ns, del, pop, update(value,k,only_unset), clone, "
+                  "ns[k]=v, setattr, ns[k], get(k,d), k in ns, del, pop, update(value,k,only_unset), update(namespace,k,only_unset) "
+                  "(round 6: any source in stored form, Namespaces inside its lists included; only_unset decided per item against the "
+                  "current state; a rejected item key stops model and dictionary at the same item, no rollback), clone, "
                   "items/keys/values(branches) and as_dict from the empty Namespace, the Gallina model of "
                   "jsonargparse.Namespace answers every step exactly as an ordered nested dictionary addressed by paths does "
                   "and its stored __dict__ tree, clash marks removed, IS that dictionary after every step; keys the code rejects "
                   "(space, empty segment) are included (both fail, state unchanged); dotted keys THROUGH dict-valued leaves and "
                   "through Namespaces stored inside dicts are included — there is no path-through-dict guard any more. "
-                  "Hypothesis (one executable classifier, hist_class_fx = 0): key segments do not start with U+200B and values "
-                  "are in stored form along every path (wf2). step_commutes / ns_refines_dict_from: the same per step and from "
+                  "Hypothesis (one executable classifier, hist_class_fx = 0): key segments do not start with U+200B (for "
+                  "update(namespace): the keys prefix+item_key it addresses) and values "
+                  "are in stored form along every path (wf2). update_namespace_refines: the update(namespace) step on its own from any well-formed tree. step_commutes / ns_refines_dict_from: the same per step and from "
                   "any well-formed state; dotted_eq_stepwise: reading s1.s2...sn as one dotted string is reading "
                   "ns[s1][s2]...[sn], any depth, through dicts, no hypothesis on the tree; clash_names_transparent: the "
                   "user-visible behaviour does not depend on the clash set (method-name keys are stored and returned like any "
@@ -51,17 +58,20 @@ META = {
                   "proved core) kept as a cross-check. The theorems about the code BEFORE the repair are kept as *_prefix, with "
                   "path_through_dict_refuted (ns['a']={'b':1}; ns['a.b'] raised) as regression witness of the fixed finding.",
     "level_note": "Only exercised by the correspondence (model AND spec agreement demanded per step, judged inside Coq, not "
-                  "proved): update(namespace), Namespace(dict), dict_to_namespace, namespace_to_dict (= as_dict, no shared "
+                  "proved): Namespace(dict), dict_to_namespace, namespace_to_dict (= as_dict, no shared "
                   "branch), == / != as a step of histories (the standalone theorem eq_agrees needs stored form at every depth, which "
                   "the refinement invariant does not carry below lists), step-by-step reading as a step of histories (covered by "
-                  "the standalone theorem dotted_eq_stepwise), clone's no-aliasing check. Not modelled: exception classes, "
-                  "aliasing between a stored value and the caller's object, as_flat, get_sorted_keys, meta keys / strip_meta, "
+                  "the standalone theorem dotted_eq_stepwise), and the runner-side demands on the real class that have no Gallina counterpart: clone's / "
+                  "namespace_to_dict's no-aliasing check, get_sorted_keys / as_flat / get_value_and_parent / keys / values as "
+                  "projections of items() resp. ns[k], non-string membership, arguments left unmodified. Not modelled: exception classes, "
+                  "aliasing between a stored value and the caller's object, meta keys / strip_meta, "
                   "non-string dict keys. Trusted: Coq kernel + vm_compute; faithfulness of coq/Model/C11NsFixed.v (with the "
                   "shared parts of coq/Model/Ns.v) beyond the tested histories; tie/impl/c11_ns.py and the Gallina printer; "
                   "translator of dir(Namespace) (the theorems hold for any clash set).",
     "technique": "Rocq refinement proof in two layers (Gallina model of the patched Namespace vs path operations on the un-marked "
                  "value tree, by induction on the path uniformly for Namespace and dict parents; the nested-dictionary spec's "
-                 "node operations are those value operations), step simulation lifted over histories by induction + "
+                 "node operations are those value operations; update(namespace) as a fold of membership test + path assignment "
+                 "over the source's leaf items, by induction on the item list), step simulation lifted over histories by induction + "
                  "correspondence over exhaustive short and seeded random histories of the real class, verdicts (model agreement "
                  "/ guard class / spec agreement) computed in Coq by vm_compute",
 }
@@ -101,7 +111,7 @@ VALUES = [
     NS(b=I(3)), NS(items=I(4), a=NS(keys=I(5))), L(NS(a=I(1)), NS(items=I(2))), NS(), D(),
 ]
 KEYS1 = ["a", "b", "items", "a.b", "a.items", "items.a", "a.b.c", "keys.get.pop", "a.items.b", "b.a"]
-BADKEYS = ["a b", "a..b", "", ".a"]
+BADKEYS = ["a b", "a..b", "", ".a", "a b.c", "a. b", "a.b c.items", "a.", " ", "items..a"]
 
 
 def alphabet(keys, values):
@@ -129,7 +139,9 @@ def small_alphabet():
             {"op": "clone"}, {"op": "items", "br": False}, {"op": "items", "br": True}, {"op": "asdict"},
             {"op": "initdict", "v": D(**{"a.b": I(1), "items": D(x=I(2))})},
             {"op": "set", "k": "a b", "v": I(1)}, {"op": "get", "k": "a..b"}, {"op": "contains", "k": "a b"},
-            {"op": "pop", "k": "", "dflt": I(9)}]
+            {"op": "pop", "k": "", "dflt": I(9)},
+            {"op": "set", "k": "a b.c", "v": I(1)}, {"op": "initdict", "v": D(**{"b": I(1), "a b": I(2)})},
+            {"op": "set", "k": "b", "v": T(L(I(1)), NS(items=I(2)), D(a=L()))}]
     ops += [{"op": "eq", "v": NS()}, {"op": "eq", "v": NS(a=I(1))}, {"op": "eq", "v": NS(a=NS(b=I(1)))},
             {"op": "eq", "v": NS(items=I(1))}, {"op": "eq", "v": NS(a=D(items=I(2), b=I(1)))}, {"op": "eq", "v": D(a=I(1))},
             {"op": "fromdict", "v": D(**{"a.b": I(1), "items": D(x=I(2), keys=L(D(a=I(1)), I(2))), "a": D(items=I(3))})},
@@ -208,7 +220,8 @@ def random_op(rng):
     if r < 0.97:
         return {"op": "asdict"}
     if r < 0.98:
-        return {"op": "initdict", "v": {"d": [[random_key(rng), random_dict_value(rng, 1)] for _ in range(rng.randint(0, 3))]}}
+        return {"op": "initdict", "v": {"d": [[rng.choice(BADKEYS) if rng.random() < 0.1 else random_key(rng), random_dict_value(rng, 1)]
+                                              for _ in range(rng.randint(0, 3))]}}
     if r < 0.99:
         return {"op": "fromdict", "v": {"d": [[random_key(rng), random_dict_value(rng, 0)] for _ in range(rng.randint(0, 3))]}}
     return {"op": rng.choice(["set", "get", "contains", "del"]), "k": rng.choice(BADKEYS), "v": I(1)}
@@ -300,6 +313,107 @@ def through_dict_family():
     return [base + t + end for t in tails] + [base + t for t in tails]
 
 
+def rich_dict(rng, depth):
+    """a dictionary with ordinary and method-name keys whose entries are scalars, None, lists, tuples, Namespaces and
+    (half of the time, down to depth 3) further dictionaries: something to address with dotted keys"""
+    ents = []
+    for k in rng.sample(NAMES, rng.randint(1, 3)):
+        r = rng.random()
+        if depth < 2 and r < 0.5:
+            v = rich_dict(rng, depth + 1)
+        elif r < 0.6:
+            v = random_ns(rng, 1)
+        elif r < 0.7:
+            v = D()
+        else:
+            v = rng.choice([I(rng.randint(0, 3)), NONE, S("x"), L(I(1)), T(I(1), L(I(2))), L(), I(0)])
+        ents.append([k, v])
+    return {"d": ents}
+
+
+def paths_of(v):
+    """the dotted paths below a dict / namespace value"""
+    (k, x), = v.items()
+    out = []
+    if k in ("d", "ns"):
+        for kk, vv in x:
+            out.append(kk)
+            out += [kk + "." + p for p in paths_of(vv)]
+    return out
+
+
+def ns_from_paths(pairs):
+    """a Namespace value holding the given (dotted path, value) leaves, common prefixes merged"""
+    root = []
+
+    def put(ents, segs, v):
+        for e in ents:
+            if e[0] == segs[0]:
+                if len(segs) == 1:
+                    e[1] = v
+                elif "ns" in e[1]:
+                    put(e[1]["ns"], segs[1:], v)
+                else:
+                    e[1] = {"ns": []}
+                    put(e[1]["ns"], segs[1:], v)
+                return
+        if len(segs) == 1:
+            ents.append([segs[0], v])
+        else:
+            sub = []
+            ents.append([segs[0], {"ns": sub}])
+            put(sub, segs[1:], v)
+    for pth, v in pairs:
+        put(root, pth.split("."), v)
+    return {"ns": root}
+
+
+def dict_paths_family(rng, n):
+    """[ns[k] = <rich dictionary>; 2-7 operations whose keys are paths INTO that dictionary (existing ones, existing ones
+    extended by a segment, with method names in the middle), among them update(value, key, only_unset) and
+    update(namespace, [prefix], only_unset) whose item keys lead below the dict value; as_dict / items]"""
+    cases = []
+    for _ in range(n):
+        root_key = ".".join(rng.choice(NAMES) for _ in range(rng.choice([1, 1, 2])))
+        d = rich_dict(rng, 0)
+        hist = [{"op": "set", "k": root_key, "v": d}]
+        rel = paths_of(d)
+
+        def pick(relative=False):
+            p = rng.choice(rel)
+            if rng.random() < 0.3:
+                p += "." + rng.choice(NAMES)
+            return p if relative else root_key + "." + p
+        for _ in range(rng.randint(2, 7)):
+            r = rng.random()
+            if r < 0.12:
+                hist.append({"op": "get", "k": pick()})
+            elif r < 0.2:
+                hist.append({"op": "getsteps", "k": pick()})
+            elif r < 0.3:
+                hist.append({"op": "contains", "k": pick()})
+            elif r < 0.36:
+                hist.append({"op": "getd", "k": pick(), "dflt": I(9)})
+            elif r < 0.46:
+                hist.append({"op": "pop", "k": pick(), "dflt": rng.choice([I(9), NONE])})
+            elif r < 0.54:
+                hist.append({"op": "del", "k": pick()})
+            elif r < 0.68:
+                hist.append({"op": "set", "k": pick(), "v": rng.choice([I(5), NONE, rich_dict(rng, 1), random_value(rng)])})
+            elif r < 0.78:
+                hist.append({"op": "updv", "v": rng.choice([I(6), NONE, D(b=I(1))]), "k": pick(), "ou": rng.random() < 0.7})
+            else:
+                if rng.random() < 0.5:
+                    src = ns_from_paths([(pick(), rng.choice([I(7), NONE, L(I(7))])) for _ in range(rng.randint(1, 3))])
+                    hist.append({"op": "updns", "v": src, "k": None, "ou": rng.random() < 0.7})
+                else:
+                    src = ns_from_paths([(pick(True), rng.choice([I(7), NONE, L(I(7))])) for _ in range(rng.randint(1, 3))])
+                    hist.append({"op": "updns", "v": src, "k": root_key, "ou": rng.random() < 0.7})
+        hist += rng.choice([[], [{"op": "asdict"}], [{"op": "items", "br": rng.random() < 0.5}], [{"op": "clone"}, {"op": "asdict"}]])
+        cases.append(hist)
+    return cases
+
+
 def generate(rng, tier):
     alpha = small_alphabet()
     cases = through_dict_family() + [[a] for a in alpha]
@@ -308,6 +422,7 @@ def generate(rng, tier):
         first = [a for a in alpha if a["op"] in ("set", "initdict", "updns")]
         cases += [[a, b, c] for a in first for b in alpha[::2] for c in alpha[1::3]]
     cases += eq_family(rng, 400 if tier == "quick" else 4000)
+    cases += dict_paths_family(rng, 500 if tier == "quick" else 5000)
     n = 1500 if tier == "quick" else 30000
     for _ in range(n):
         ln = rng.randint(3, 40) if rng.random() < 0.5 else rng.randint(3, 10)
